@@ -1497,3 +1497,33 @@ package decimal128
 //@ holds (cmpmag(cd, ed, co, eo) == 0 - 1 <==> vd < vo) && (cmpmag(cd, ed, co, eo) == 0 <==> vd == vo) && (cmpmag(cd, ed, co, eo) == 1 <==> vd > vo)
 //@ props C04 C19
 
+
+// ---------------------------------------------------------------------------
+// format.go: digits.round (C07): round-half-even on a digit string without
+// trailing zeros, carry propagation, stripping of trailing zeros.
+// dig[0..ndig) are ASCII digits, most significant first; the value is
+// 0.d0 d1 ... x 10^(exp + ndig) = (d0 d1 ... as integer) x 10^exp.
+// ---------------------------------------------------------------------------
+
+//@ func digits.round
+//@ define RoundsUp = old(d.dig[prec]) > 53 || (old(d.dig[prec]) == 53 && (old(d.ndig) > prec + 1 || (prec >= 1 && old(d.dig[prec - 1]) % 2 == 1)))
+//@ requires 0 <= d.ndig && d.ndig <= 39 && 0 - 100000000 <= prec && prec <= 100000000 && 0 - 100000000 <= d.exp && d.exp <= 100000000
+//@ requires forall k in 0..38: k < d.ndig ==> 48 <= d.dig[k] && d.dig[k] <= 57
+//@ requires forall k in 1..39: d.ndig == k ==> d.dig[k - 1] != 48
+//@ ensures old(d.ndig) <= prec ==> *d == old(*d)
+//@ ensures old(d.ndig) > prec && prec < 0 ==> d.ndig == 0 && d.exp == old(d.exp) + old(d.ndig)
+//@ ensures d.neg == old(d.neg) && d.exp + d.ndig >= old(d.exp) + old(d.ndig) && d.exp + d.ndig <= old(d.exp) + old(d.ndig) + 1
+//@ ensures 0 <= d.ndig && d.ndig <= 39 && (forall k in 0..38: k < d.ndig ==> 48 <= d.dig[k] && d.dig[k] <= 57) && (forall k in 1..39: d.ndig == k ==> d.dig[k - 1] != 48)
+// not rounded up: the kept prefix with its trailing zeros stripped
+//@ ensures old(d.ndig) > prec && prec >= 0 && !RoundsUp ==> d.ndig <= prec && d.exp + d.ndig == old(d.exp) + old(d.ndig)
+//@    && (forall k in 0..38: k < d.ndig ==> d.dig[k] == old(d.dig[k])) && (forall k in 0..38: (k >= d.ndig && k < prec) ==> old(d.dig[k]) == 48)
+// rounded up: the kept prefix plus one unit in its last place (a run of nines carries)
+//@ ensures old(d.ndig) > prec && prec >= 0 && RoundsUp && (forall k in 0..38: k < prec ==> old(d.dig[k]) == 57) ==> d.ndig == 1 && d.dig[0] == 49 && d.exp == old(d.exp) + old(d.ndig)
+//@ ensures old(d.ndig) > prec && prec >= 0 && RoundsUp && !(forall k in 0..38: k < prec ==> old(d.dig[k]) == 57) ==> d.ndig >= 1 && d.ndig <= prec && d.exp + d.ndig == old(d.exp) + old(d.ndig)
+//@    && (forall k in 0..38: k + 1 < d.ndig ==> d.dig[k] == old(d.dig[k])) && (forall k in 0..38: k + 1 == d.ndig ==> d.dig[k] == old(d.dig[k]) + 1)
+//@    && (forall k in 0..38: (k >= d.ndig && k < prec) ==> old(d.dig[k]) == 57)
+//@ loop 1: invariant 0 - 1 <= i && i < prec && prec < d.ndig && d.ndig <= 39 && *d == old(*d) && (forall k in 0..38: (k > i && k < prec) ==> d.dig[k] == 57)
+//@ loop 1: decreases i + 1
+//@ loop 2: invariant 0 - 1 <= i && i < prec && prec < d.ndig && d.ndig <= 39 && *d == old(*d) && (forall k in 0..38: (k > i && k < prec) ==> d.dig[k] == 48)
+//@ loop 2: decreases i + 1
+//@ props C07 C20
